@@ -154,6 +154,26 @@ func ownRunes(face *font.Face, max int) []rune {
 	return own
 }
 
+// noExtentRunes lists runes of the face's own cmap whose glyph has no extents in the face (glyph id
+// past the last glyph, or no outline/bitmap source): the shaper leaves such glyphs zero-sized, a path
+// of its own in Shape.
+func noExtentRunes(face *font.Face, scan, max int) []rune {
+	var out []rune
+	it := face.Cmap.Iter()
+	for n := 0; it.Next() && n < scan && len(out) < max; n++ {
+		r, g := it.Char()
+		ok := true
+		func() {
+			defer func() { recover() }()
+			_, ok = face.GlyphExtents(g)
+		}()
+		if !ok {
+			out = append(out, r)
+		}
+	}
+	return out
+}
+
 func shapeMain(args []string) error {
 	if len(args) < 1 {
 		return fmt.Errorf("shape: missing sub-command")
@@ -194,6 +214,10 @@ func shapeMain(args []string) error {
 						t[i] = own[rng.Intn(len(own))]
 					}
 					texts = append(texts, t)
+				}
+				if ne := noExtentRunes(face, 3000, 4); len(ne) > 0 && len(own) > 0 {
+					t := []rune{own[rng.Intn(len(own))], ne[0], own[rng.Intn(len(own))], ne[len(ne)-1]}
+					texts = append(texts, t, []rune{'a', ne[rng.Intn(len(ne))], 'b'})
 				}
 				jobs = append(jobs, func(enc *json.Encoder) {
 					var sh shaping.HarfbuzzShaper
@@ -237,11 +261,36 @@ func shapeMain(args []string) error {
 				})
 			}
 		}
-		runJobs(sw, jobs)
-		for _, e := range sw.encs {
-			_ = e
+		// every corpus file (not only the sample): texts over the runes whose glyph has no extents
+		noext := 0
+		for fi, cf := range corpusFiles() {
+			fi, cf := fi, cf
+			jobs = append(jobs, func(enc *json.Encoder) {
+				faces, err, pan := loadFaces(cf.Data)
+				if err != nil || pan != nil {
+					return
+				}
+				for xi, face := range faces {
+					ne := noExtentRunes(face, 3000, 4)
+					if len(ne) == 0 {
+						continue
+					}
+					rng := rand.New(rand.NewSource(seed*911 + int64(fi)*31 + int64(xi)))
+					own := ownRunes(face, 500)
+					var sh shaping.HarfbuzzShaper
+					text := []rune{own[rng.Intn(len(own))], ne[0], own[rng.Intn(len(own))], ne[len(ne)-1], 'a'}
+					for di_, dir := range []di.Direction{di.DirectionLTR, di.DirectionRTL, di.DirectionTTB} {
+						for _, b := range [][2]int{{0, len(text)}, {1, len(text) - 1}} {
+							observeShape(enc, &sh, shapeCall{id: fmt.Sprintf("%s#%d noext d%d b%v", cf.ID, xi, di_, b), face: face, text: text, start: b[0], end: b[1], dir: dir,
+								script: shapeScripts[rng.Intn(len(shapeScripts))], lang: "en", size: sizes[rng.Intn(len(sizes))]})
+						}
+					}
+				}
+			})
+			noext++
 		}
-		fmt.Printf("{\"faces\": %d, \"calls\": %d}\n", len(jobs), ncalls)
+		runJobs(sw, jobs)
+		fmt.Printf("{\"faces\": %d, \"calls\": %d}\n", len(jobs)-noext, ncalls)
 		return nil
 
 	case "hb":
